@@ -303,6 +303,20 @@ func c09History(c *Ctx, keys [][]byte) {
 		}
 		c.Eval(1)
 	}
+	// plaintexts next to classes the tool treats specially, under encryption alone and next to every other mode: what
+	// is encrypted must be the literal itself, not a cleaned-up, normalised or otherwise pre-processed form of it
+	specials := append(append([]string{}, c10Dictionary...), "Bob Builder <bob@example.com>", "10.1.2.3:27017", "192.168.0.1", "Zoe\u0308", "\u1100\u1161\u11a8", "REDACTED", "redacted@redacted.com", "000000000000000000000000", "1970-01-01T00:00:00.000Z", "a$ref", "a.b.c", "  padded  ", "tab\tnl\n", "\ufeffbom", "UPPER lower", "ＡＢＣ fullwidth")
+	for _, fl := range []Flags{{Y: true}, {Y: true, I: true}, {Y: true, N: true, B: true, I: true, W: true}, {Y: true, F: []string{"d.c"}}, {Y: true, R: "10.", I: true}, {Y: true, Z: "^fld$"}} {
+		fl.Key = key
+		fl.Apply()
+		for _, sp := range specials {
+			c.Distinct(fmt.Sprintf("special/%d/%s/%q", c.Shard, fl, sp))
+			if _, bad := through(sp); bad != "" {
+				c.Violate("roundtrip:line:special-plaintext", fmt.Sprintf("flags [%s], literal %q: %s", fl, sp, bad), int64(len(sp)), map[string]any{"kind": "special-plaintext", "flags": fl.String(), "literal": sp}, nil)
+			}
+		}
+	}
+	Flags{Y: true, Key: key}.Apply()
 	N := 12000
 	if c.Thorough() {
 		N = 150000
